@@ -145,6 +145,7 @@ type appState struct {
 	gang    bool
 	phSent  int
 	removed bool
+	askRes  map[string]res.R
 }
 
 type runner struct {
@@ -259,6 +260,10 @@ func (r *runner) client(id int, wg *sync.WaitGroup) {
 				}
 			}
 			a.pending = append(a.pending, key)
+			if a.askRes == nil {
+				a.askRes = map[string]res.R{}
+			}
+			a.askRes[key] = spec.Res
 			r.mu.Unlock()
 			_ = c.SendAlloc(spec)
 			r.count("conc.ask", 1)
@@ -318,8 +323,20 @@ func (r *runner) client(id int, wg *sync.WaitGroup) {
 				break
 			}
 			ok := a != nil && !a.removed && !a.gang && node != ""
+			pendingKey := ""
+			var pendingRes res.R
+			if ok && len(a.pending) > 0 && rng.Chance(500) {
+				// the RM binds a pending ask itself, while the scheduler may be allocating or reserving it
+				pendingKey = a.pending[len(a.pending)-1]
+				pendingRes = a.askRes[pendingKey]
+				a.pending = a.pending[:len(a.pending)-1]
+				a.bound = append(a.bound, pendingKey)
+			}
 			r.mu.Unlock()
-			if ok {
+			if ok && pendingKey != "" {
+				_ = c.SendAlloc(shim.AllocSpec{App: appID, Key: pendingKey, Node: node, Res: pendingRes, Tags: map[string]string{}})
+				r.count("conc.bindPending", 1)
+			} else if ok {
 				key := fmt.Sprintf("%s-b%d", appID, r.keyN.Add(1))
 				_ = c.SendAlloc(shim.AllocSpec{App: appID, Key: key, Node: node, Res: res.R{"memory": 1, "vcore": 1}, Tags: map[string]string{}})
 				r.count("conc.bound", 1)
@@ -778,6 +795,10 @@ func Run(prop string, seed uint64, o Opts, raceLogPath string) *det.CaseResult {
 		out.Obs["conc.final_apps"] = int64(len(w.Apps))
 		out.Obs["conc.final_allocs"] = int64(w.NAllocs)
 	}
+	// order-insensitive protocol rules (C04) over the whole trace
+	pv, pj := ProtocolViolations(c.S.TraceFrom(0))
+	out.Obs["conc.protocol_events_judged"] = pj
+	out.Violations = append(out.Violations, pv...)
 	// go-deadlock
 	reps := locking.VerifDeadlockReports()
 	for _, rep := range reps[beforeReports:] {
@@ -914,4 +935,71 @@ func stuckCoreGoroutine(d1, d2 string) string {
 		}
 	}
 	return ""
+}
+
+// ProtocolViolations judges the rules of the allocation protocol (C04) that do not depend on how the shim's own
+// requests interleave with the core: the callbacks arrive through one proxy goroutine (totally ordered), every request
+// is recorded before it is sent, and allocation keys are never reused. So at any point of the log: a new allocation
+// names a key and a node the shim has sent before; a key is not announced as allocated twice without the core
+// announcing its release in between (one echo is allowed per "already bound" report of the shim); a release names a
+// key the shim has sent before.
+func ProtocolViolations(trace []*shim.Ev) (out []det.Violation, judged int64) {
+	type ks struct {
+		sent        bool
+		echoAllowed int
+		bound       bool
+	}
+	keys := map[string]*ks{}
+	nodes := map[string]bool{}
+	get := func(k string) *ks {
+		if keys[k] == nil {
+			keys[k] = &ks{}
+		}
+		return keys[k]
+	}
+	add := func(rule, text string) {
+		out = append(out, det.Violation{Prop: "C04", Rule: rule, Signature: "C04/" + rule + "@conc", Text: text, Op: "conc"})
+	}
+	for _, ev := range trace {
+		if strings.HasPrefix(ev.Key, shim.SentinelPrefix) || strings.HasPrefix(ev.App, shim.SentinelPrefix) || strings.HasPrefix(ev.Node, shim.SentinelPrefix) {
+			continue
+		}
+		switch {
+		case ev.Dir == "send" && (ev.Kind == "ask" || ev.Kind == "foreign"):
+			get(ev.Key).sent = true
+		case ev.Dir == "send" && ev.Kind == "bound":
+			k := get(ev.Key)
+			k.sent = true
+			k.echoAllowed++
+		case ev.Dir == "send" && strings.HasPrefix(ev.Kind, "node:"):
+			nodes[ev.Node] = true
+		case ev.Dir == "recv" && ev.Kind == "new":
+			judged++
+			k := get(ev.Key)
+			if !k.sent {
+				add("new-unknown-key", fmt.Sprintf("the core announced allocation %s (application %s, node %s) for a key the shim never sent", ev.Key, ev.App, ev.Node))
+			}
+			if !nodes[ev.Node] {
+				add("new-node-not-registered", fmt.Sprintf("the core announced allocation %s on node %s which the shim never registered", ev.Key, ev.Node))
+			}
+			if k.bound {
+				if k.echoAllowed > 0 {
+					k.echoAllowed--
+				} else {
+					add("key-bound-twice", fmt.Sprintf("the core announced allocation %s as new twice without announcing its release in between", ev.Key))
+				}
+			} else if k.echoAllowed > 0 {
+				k.echoAllowed--
+			}
+			k.bound = true
+		case ev.Dir == "recv" && ev.Kind == "released":
+			judged++
+			k := get(ev.Key)
+			if !k.sent {
+				add("release-unknown-key", fmt.Sprintf("the core announced the release (%s) of %s, a key the shim never sent", ev.Term, ev.Key))
+			}
+			k.bound = false
+		}
+	}
+	return out, judged
 }
